@@ -368,6 +368,10 @@ def gen_items(rng, depth, n, broken, feats):
             out.extend(gen_for(rng, depth - 1, broken, feats))
         else:
             out.append(rng.choice(TEXTS))
+    if depth > 0 and rng.random() < 0.6:       # keep the requested nesting depth likely
+        nested = gen_if(rng, depth - 1, broken, feats) if rng.random() < 0.6 else gen_for(rng, depth - 1, broken, feats)
+        pos = rng.randint(0, len(out))
+        out[pos:pos] = nested
     return out
 
 
@@ -393,11 +397,11 @@ def gen_if(rng, depth, broken, feats):
         feats.add("elif")
         out += indent_body(rng, gen_items(rng, depth, rng.randint(0, 3), broken, feats), feats)
     if rng.random() < 0.5:
-        out.append(rng.choice(ELSE_BAD if b and rng.random() < 0.4 else ELSE))
+        out.append(rng.choice(ELSE_BAD if b and rng.random() < 0.6 else ELSE))
         feats.add("else")
         out += indent_body(rng, gen_items(rng, depth, rng.randint(0, 3), broken, feats), feats)
-    if b and rng.random() < 0.4:
-        if rng.random() < 0.5:
+    if b and rng.random() < 0.5:
+        if rng.random() < 0.6:
             out.append(rng.choice(ENDIF_BAD))
     else:
         out.append(rng.choice(ENDIF))
@@ -645,7 +649,7 @@ def run(tier: str, seed: int) -> int:
     variant = os.environ.get("BARDIC_C11B_VARIANT", "fixed")
     suffix = {"fixed": "fixed", "a": "a", "current": "cur"}[variant]
     bad_fn, show_fn = f"case_bad_{suffix}", f"case_show_{suffix}"
-    n_blocks, n_join, n_mis, n_repo, maxdepth = (380, 90, 30, 260, 3) if tier == "quick" else (5000, 900, 200, 4000, 4)
+    n_blocks, n_join, n_mis, n_repo, maxdepth = (380, 90, 30, 260, 4) if tier == "quick" else (5000, 900, 200, 4000, 5)
 
     cases = [{"kind": k, "lines": ls, "start": st, "src": "corpus", "broken": True, "feats": ["corpus"], "gen_depth": None}
              for k, ls, st in CORPUS]
@@ -734,6 +738,24 @@ def run(tier: str, seed: int) -> int:
                           "model_says": shown.get(b)})
         else:
             chk.disagree("coqc", "case shard failed to evaluate", {"log": log[-3000:]})
+    # ---- second pass (only with the final model version): part A's ParseLine.v functions instead of the tables ----
+    real_bad = None
+    if variant == "fixed" and os.path.exists(os.path.join(C.COQ, "Compiler", "ParseBlocksInst.vo")):
+        hdr = HEADER[:-1] + " ParseLine ParseBlocksInst."
+        rb, rshown, rlog = C.run_coq_cases(chk.scratch, hdr, terms, "ccase", "case_bad_real", shard=60,
+                                           show_fn="case_show_real", timeout=900)
+        real_bad = len(rb)
+        for b_ in rb:
+            disagreements += 1
+            if isinstance(b_, int):
+                case = kept[b_]
+                chk.disagree("real-linefns", "ParseBlocks.v instantiated with ParseLine.v and blocks.py differ on an "
+                             f"extract_{case['kind']} call (tables agree: look at ParseLine.v)",
+                             {"case": {k: case[k] for k in ("kind", "lines", "start", "src") if k in case},
+                              "indent": case.get("indent"), "implementation": case.get("outcome"), "model_says": rshown.get(b_)})
+            else:
+                chk.disagree("real-linefns-coqc", "case shard failed to evaluate", {"log": rlog[-3000:]})
+    chk.notes["second_pass_with_ParseLine"] = "not run" if real_bad is None else f"{len(terms)} cases, {real_bad} mismatches"
     chk.cov["programs"] = len(terms)
     chk.cov["disagreements_checked"] = len(terms)
     chk.cov["disagreements_found"] = disagreements
